@@ -1,0 +1,19 @@
+//go:build verif
+
+// Contracts for govc (contract-based deductive verification, /verif). Comment-only file:
+// it is compiled only under the build tag "verif" and contains no code.
+
+package bfe_server
+
+//@ func hopByHopHeaderRemove
+//@   props C26
+//@   nopanic
+//@   requires outreq != nil && req != nil && outreq != req
+//@   requires[outreq_is_a_shallow_copy_of_req] outreq.Header == req.Header
+//@   requires[parsed_header_maps_hold_canonical_names] canonicalKeys(req.Header)
+//@   requires[heap_is_closed] req.Header == nil || allocated(req.Header)
+//@   modifies outreq.Header
+//@   ensures[hop_by_hop_fields_do_not_reach_the_backend] forall i int :: 0 <= i && i < len(bfe_basic.HopHeaders) ==> !has(outreq.Header, canonKey(bfe_basic.HopHeaders[i])) || len(outreq.Header[canonKey(bfe_basic.HopHeaders[i])]) == 0 || (bfe_basic.HopHeaders[i] == "Te" && len(outreq.Header[canonKey("Te")]) == 1 && outreq.Header[canonKey("Te")][0] == "trailers")
+//@   loop 1 invariant[removed_so_far] forall i int :: 0 <= i && i <= rangeindex ==> !has(outreq.Header, canonKey(bfe_basic.HopHeaders[i])) || len(outreq.Header[canonKey(bfe_basic.HopHeaders[i])]) == 0 || (bfe_basic.HopHeaders[i] == "Te" && len(outreq.Header[canonKey("Te")]) == 1 && outreq.Header[canonKey("Te")][0] == "trailers")
+//@   loop 1 invariant[the_clients_map_is_left_alone] req.Header == old(req.Header) && canonicalKeys(req.Header) && (!copiedHeaders ==> outreq.Header == req.Header)
+//@   loop 1 invariant[deletions_only_touch_the_copy] copiedHeaders ==> outreq.Header != nil && !allocated(outreq.Header)
